@@ -47,12 +47,14 @@ CER: ContextVar[Optional[dict]] = ContextVar("sim_content_evaluation_result", de
 PEER_SET: ContextVar[int] = ContextVar("sim_peer_set_of_the_request", default=0)
 
 
-TIME_UNIT = 0.001
+TIME_UNIT = 0.0001
 """
 one latency / start / fault-time unit of a scenario in virtual seconds. The properties quantify over completion
-*orders*, not durations: latencies are kept in the millisecond-to-seconds range (the straggler profile's 10 000 units
-are 10 virtual seconds) so that a code change which adds a generous real-world timeout around user evaluators is not
-flagged merely because a simulated evaluator "took three hours".
+*orders*, not durations: a single latency is at most one virtual second (the straggler profile's 10 000 units) and a
+whole validation - a chain of sequential stages: requirement constraints, hints, format constraints, level after
+level - stays below about twelve virtual seconds, so that a code change which adds a generous real-world timeout (a
+minute, say) around user evaluators or around a whole validation is not flagged merely because simulated evaluators
+"took two minutes".
 """
 
 
@@ -310,8 +312,11 @@ def _make_rc_evaluator(sim, keys, sync_keys, index=0):
                 if context is not None and not str(context.scope or "").startswith("$['state-"):
                     # like a user evaluator that narrows the scope of *its* default context, awaits, and reads it again
                     sim.scope_tokens = getattr(sim, "scope_tokens", 0) + 1
-                    token = f"{REQ.get()}/{_key}/#{sim.scope_tokens}"
-                    context.scope = token
+                    token = f"$['{REQ.get()}/{_key}/#{sim.scope_tokens}']"  # (a json path, as documented)
+                    try:
+                        context.scope = token
+                    except Exception:  # pylint:disable=broad-except
+                        token = None  # a context that cannot be written cannot be clobbered either
                 await sim.pause("rc", _key)
                 value = sim.rc_value(_key, evaluatable_data, context)
                 if token is not None:
@@ -325,7 +330,10 @@ def _make_rc_evaluator(sim, keys, sync_keys, index=0):
                                 f"{token!r})",
                             )
                         value = _flip(value)  # what the evaluator computes from a foreign scope is something else
-                    context.scope = None
+                    try:
+                        context.scope = None
+                    except Exception:  # pylint:disable=broad-except
+                        pass
                 return value
 
     return type("SimRcEvaluator", (RcEvaluator,), namespace)()
